@@ -15,7 +15,7 @@ def ident_part(rep, tier, coverage):
     d = workdir("C09-ident")
     chars = [ord(c) for c in "aA1_ \"$.é-"]
     words = []
-    for w in MUST + PRQL_WORDS + ["table_0", "_expr_0", "a'b", "a;b", "a--b", "a/*b", "a\\b", "a%b", "a[b]", "tab\tname", "日本", "UPPER_CASE", "mixed_Case9", "x y z"]:
+    for w in MUST + PRQL_WORDS + ["table_0", "_expr_0", "a'b", "a;b", "a--b", "a/*b", "a\\b", "a\\", "\\", "a\\\"b", "a%b", "a[b]", "tab\tname", "日本", "UPPER_CASE", "mixed_Case9", "x y z"]:
         for v in {w, w.upper(), w.capitalize()} if w.isalpha() and w in MUST[:12] else {w}:
             words.append({"s": v, "cps": [ord(c) for c in v], "lower": v.lower()})
     cfg = {"chars": chars, "maxlen": 2 if tier == "quick" else 3, "words": words}
@@ -45,6 +45,12 @@ def ident_part(rep, tier, coverage):
             rep.violation({"property": "C09", "kind": "ident", "name": name, "position": e["pos"], "prql": e["src"], "dialect": dl,
                            "sql": [x["sql"] for x in e["dialects"] if x["d"] == dl.replace("sqlite-engine", "sqlite")][:1], "sqlite": e["sqlite"]},
                           {"what": "ident", "dialect": dl, "name": name, "pos": e["pos"], "src": e["src"]})
+    for r in tuples(tout, "FMT"):
+        e = evs[r[1]]
+        dd = next((x for x in e["dialects"] if x["d"] == r[3]), {})
+        rep.violation({"property": "C09", "kind": "ident-format-" + r[2], "name": e["name"]["s"], "position": e["pos"], "prql": e["src"], "dialect": r[3],
+                       "sql": dd.get("sql"), "formatted_sql": dd.get("fmt_sql")},
+                      {"what": "ident-format", "fault": r[2], "dialect": r[3], "name": e["name"]["s"], "pos": e["pos"], "src": e["src"], "sql": dd.get("sql") or ""})
     # binding demonstration: change the token value / the quoting flag of one event
     bad = [dict(e) for e in list(evs.values())[:30]]
     k = 0
